@@ -47,6 +47,10 @@ func (e *Envelope) Sign(req *signature.SignRequest) ([]byte, error) {
 	if err != nil {
 		return nil, err
 	}
+	// The internal envelope now holds the new message. Drop the previous raw
+	// signature so that the new message is not observable through Verify or
+	// Content unless the validation below succeeds.
+	e.Raw = nil
 
 	// validate certificate chain
 	content, err := e.Envelope.Content()
